@@ -6,3 +6,5 @@ open IrVerif.Scope
 #print axioms C17_idempotent
 #print axioms C17_consistent_is_WF
 #print axioms C17_deserialize_WF
+#print axioms C17_total_model
+#print axioms C17_idempotent_model_partial
